@@ -104,8 +104,10 @@ func (f *Font) WidthsMapPDF() map[string]float64 {
 // TODO(voss): remove in favour of FontBBoxPDF
 func (f *Font) FontBBox() (bbox rect.Rect) {
 	first := true
-	for _, glyph := range f.Glyphs {
-		thisBBox := glyph.BBox()
+	// visit the glyphs in a fixed order: with NaN coordinates the union
+	// depends on the order
+	for _, glyphName := range f.sortedGlyphNames() {
+		thisBBox := f.Glyphs[glyphName].BBox()
 		if thisBBox.IsZero() {
 			continue
 		}
@@ -119,11 +121,18 @@ func (f *Font) FontBBox() (bbox rect.Rect) {
 	return bbox
 }
 
+// sortedGlyphNames returns the names of all glyphs in alphabetical order.
+func (f *Font) sortedGlyphNames() []string {
+	names := maps.Keys(f.Glyphs)
+	sort.Strings(names)
+	return names
+}
+
 // FontBBoxPDF returns the font bounding box in PDF glyph space units.
 // This is the smallest rectangle enclosing all individual glyphs bounding boxes.
 func (f *Font) FontBBoxPDF() (fontBBox rect.Rect) {
 	first := true
-	for glyphName := range f.Glyphs {
+	for _, glyphName := range f.sortedGlyphNames() {
 		glyphBBox := f.GlyphBBoxPDF(glyphName)
 		if glyphBBox.IsZero() {
 			continue
